@@ -864,6 +864,84 @@ func genDnest(r *rng, o *out, do func(string) string, tier string) {
 	o.nontrivial(fmt.Sprintf("dnest:%s:%s:%d:%d", app, g.msgType, g.fd.Tag(), len(inst.entries)))
 }
 
+
+// ------------------------------------------------------------------ dplain (every plain body field of every message type of the shipped dictionaries)
+
+var dplainCounter int
+
+// genDplain: the message type is taken in turn from the shipped application dictionaries; ALL its plain top-level body
+// fields (as the DICTIONARY classifies them — the implementation's own tag tables are not consulted) are set, the message is
+// built, parsed back with the dictionaries and as a wire message, and every field must be retrievable from the body.
+func genDplain(r *rng, o *out, do func(string) string) {
+	do("!label dplain")
+	app := appDicts[dplainCounter%len(appDicts)]
+	d := dict(app)
+	var types []string
+	for k := range d.Messages {
+		types = append(types, k)
+	}
+	sort.Strings(types)
+	mt := types[(dplainCounter/len(appDicts))%len(types)]
+	dplainCounter++
+	mm := d.Messages[mt]
+	var tags []int
+	for _, t := range sortedKeys(mm.Fields) {
+		if len(mm.Fields[t].Fields) > 0 {
+			continue
+		}
+		if _, isH := d.Header.Fields[t]; isH {
+			continue
+		}
+		if _, isT := d.Trailer.Fields[t]; isT {
+			continue
+		}
+		if t == 212 || t == 213 {
+			continue // XMLData: a length-prefixed pair, exercised by the wire generator
+		}
+		tags = append(tags, t)
+	}
+	for len(tags) > 40 {
+		i := r.intn(len(tags))
+		tags = append(tags[:i:i], tags[i+1:]...)
+	}
+	do("new")
+	bs := map[string]string{"FIX40": "FIX.4.0", "FIX41": "FIX.4.1", "FIX42": "FIX.4.2", "FIX43": "FIX.4.3", "FIX44": "FIX.4.4"}[app]
+	if bs == "" {
+		bs = "FIXT.1.1"
+	}
+	do("set h 8 " + hx([]byte(bs)))
+	do("set h 35 " + hx([]byte(mt)))
+	do("set h 49 " + hx([]byte("S")))
+	do("set h 56 " + hx([]byte("T")))
+	for _, t := range tags {
+		do(fmt.Sprintf("set b %d %s", t, hx(randVal(r))))
+	}
+	mode := dgrpMode(r, app)
+	built := do("build")
+	seen := map[string]bool{}
+	w := strings.Fields(built)
+	if len(w) > 1 && w[0] == "bytes" {
+		emitDdefs(mode, unhx(w[1]), seen, do)
+	}
+	res := do("reparse " + mode)
+	o.kind("dplain.reparse." + strings.Fields(res)[0])
+	for _, t := range tags {
+		do(fmt.Sprintf("get b %d", t))
+	}
+	do("tags h")
+	do("rebuild")
+	if len(w) > 1 && w[0] == "bytes" {
+		res := do("parse " + mode + " " + hx(unhx(w[1])))
+		if strings.HasPrefix(res, "ok") {
+			for _, t := range tags {
+				do(fmt.Sprintf("get b %d", t))
+			}
+			do("rebuild")
+		}
+	}
+	o.nontrivial(fmt.Sprintf("dplain:%s:%s:%d", app, mt, len(tags)))
+}
+
 // ------------------------------------------------------------------ junk (C09)
 
 func genJunk(r *rng, o *out, do func(string) string) {
@@ -972,8 +1050,14 @@ func genCodec(r *rng, tier string, idx int, o *out, do func(string) string) stri
 		genDnest(r, o, do, tier)
 	case 4, 5:
 		genWire(r, o, do)
-	case 6, 7:
+	case 6:
 		genGrp(r, o, do)
+	case 7:
+		if idx%20 == 7 {
+			genGrp(r, o, do)
+		} else {
+			genDplain(r, o, do)
+		}
 	case 8:
 		genDgrp(r, o, do, tier)
 	default:
